@@ -222,14 +222,23 @@ def classify(ctx, failing):
     skipped = len(order) - cap if len(order) > cap else 0
     for c, st, e2 in [failing[i] for i in order[:cap]]:
         kind = c['kind']
-        plain = c['e']            # atoms printed as plain names for the shrink
-        m = L.minimise(plain, kind, st, _status_cache, _min_cache) if L.status(plain, kind, _status_cache) == st else None
+        plain = c['e']            # atoms printed as plain names for the shrink when the input still fails that way ...
+        m, matoms = None, None
+        if L.status(plain, kind, _status_cache) in L.FAIL:
+            m = L.minimise(plain, kind, L.FAIL, _status_cache, _min_cache)
+            mst = L.status(m, kind, _status_cache)
+        elif c.get('atoms') and L.status(plain, kind, _status_cache, c['atoms']) in L.FAIL:
+            # ... otherwise with the original atoms (rich atoms change the bytecode, e.g. exit-block copying in a lambda)
+            m = L.minimise(plain, kind, L.FAIL, _status_cache, _min_cache, c['atoms'])
+            matoms = L.shrunk_atoms(c['atoms'], m)
+            mst = L.status(m, kind, _status_cache, c['atoms'])
         if m is None:
             key = L.finding_key(kind, st + ':unminimised', c['e'])
             mc = c
         else:
-            key = L.finding_key(kind, st, m)
-            mc = {'kind': kind, 'e': m, 'atoms': None}
+            # the key is that of the minimal failing core: its position class, ITS failure kind, its defect family
+            key = L.finding_key(kind, mst, m)
+            mc = {'kind': kind, 'e': m, 'atoms': matoms}
         g = groups.setdefault(key, {'count': 0, 'best': None})
         g['count'] += 1
         _case_key[(kind, L.key_tuple(c['e']), tuple(c['atoms']) if c.get('atoms') else None)] = key
